@@ -538,6 +538,9 @@ func init() {
 		if it, ok := args[1].(iface); ok && it.t == nil {
 			return nil
 		}
+		if fr.i.isolate {
+			fr.i.release(args[1], 0)
+		}
 		m.items = append(m.items, args[1])
 		return nil
 	})
